@@ -52,6 +52,9 @@ pub fn catalog() -> Vec<J> {
         json!({"sub": "subject", "nbf": 1000, "jti": "j", "k": [null, false, 0, "", {}, []]}),
         json!({"m": [[[1], []], [[2, [3]]]], "o": {"p": {}}}),
         json!({"arr": [{"x": [{"y": 1}, 2]}, [{"z": null}]], "": "empty-name", " ": "space"}),
+        // names that merely start with / contain / extend the reserved `_sd` and `...` (not reserved themselves)
+        json!({"_sdk_version": "1.2", "device": {"model": "m", "_sd_card_serial": "s", "_sd1": 1, "x_sd": [{"_sdx": true, "_SD": null}]}, "apps": [{"_sd_": 1, "name": "a"}, [{"__sd": 2}]]}),
+        json!({"....": 1, "...x": {"..": [{"... ": 2, "x...": 3}]}, "_sd.": "v", "_sd ": [{" _sd": 1}], "\u{2026}": {"_sd...": [], "..._sd": {}}}),
         // width: containers with more than 10 members / elements
         json!({"w": {"m0": 0, "m1": 1, "m2": 2, "m3": 3, "m4": 4, "m5": 5, "m6": 6, "m7": 7, "m8": 8, "m9": 9, "m10": 10, "m11": 11}, "wa": [0, 1, 2, 3, 4, 5, 6, 7, 8, 9, 10, 11]}),
         json!({"key with space": {"k\"q": 1, "k\\b": 2, "k/s": 3}, "\u{e9}": "\u{e9}", "emoji\u{1F680}": {"\u{10FFFF}": "\u{100000}"}}),
